@@ -286,12 +286,12 @@ func (c *channel) connect() error {
 		// a connection has not yet been established; i.e.,
 		// a previous dial attempt could have failed.
 		// try dialing again.
-		err := c.node.dial()
+		conn, err := c.node.dial()
 		if err != nil {
 			c.streamBroken.set()
 			return err
 		}
-		err = c.newNodeStream(c.node.conn)
+		err = c.newNodeStream(conn)
 		if err != nil {
 			c.streamBroken.set()
 			return err
